@@ -451,9 +451,9 @@ func localConfigs(r *vk.Run) []*localCfg {
 		vk.Fatalf("fixture: proposer rotation of 4 equal validators is not a 4-cycle")
 	}
 	for i, p := range prefixes {
-		d := r.Pick(5, 7)
-		if r.Quick() && i >= 4 {
-			d = 4
+		d := r.Pick(4, 7)
+		if r.Quick() && i == 0 {
+			d = 5
 		}
 		out = append(out, &localCfg{name: fmt.Sprintf("eq4/self%d(non-proposer)/sym/%s", other, p.name), powers: eq, self: other, rounds: 2, sym: true,
 			depth: d, maxSt: r.Pick(60000, 1500000), prefix: p.pre})
